@@ -77,7 +77,7 @@ def check(ctx) -> Result:
             option = [p_ for p_ in f.params() if p_ != "self"]
             option = option[0] if option else "invert"
             for inv in (False, True):
-                keys = [(d_, k_, nd) for d_, k_, nd in permode.key_tables(fh.node, option, inv)]
+                keys = [(d_, k_, nd) for d_, k_, nd in permode.key_tables(fh.node, option, inv, {n_: f_.node for n_, f_ in f.module.functions.items()})]
                 tabs = [(d_, k_, nd) for d_, k_, nd in keys if isinstance(k_, permode.Sym) and k_.table != permode.DOMAIN]
                 inst = f"{ci.name}.apply_{kind}_mapping:{'inverted' if inv else 'plain'}"
                 if not tabs:
@@ -91,7 +91,8 @@ def check(ctx) -> Result:
                 res.add(not bad_t, "E-per-mode-function", inst, f.site(tabs[0][2]), f.qualname, f"{kind} mapping ({'inverted' if inv else 'plain'}) sends occupations 0..5 to {want[inv]}",
                         f"{kind} mapping ({'inverted' if inv else 'plain'}) sends occupations 0..5 to {bad_t[0][1].table if bad_t else ''}, documented is {want[inv]}", construct=str(bad_t[0][1]) if bad_t else "")
             # result goes through recombination: every return hands the dictionary that received the weights to _recombine_mapped_result
-            dicts = {d_.split("[")[0] for d_, k_, _nd in permode.key_tables(fh.node, option, False) if isinstance(k_, permode.Sym)}
+            dicts = {d_.split("[")[0] for d_, k_, _nd in permode.key_tables(fh.node, option, False, {n_: f_.node for n_, f_ in f.module.functions.items()}) if isinstance(k_, permode.Sym)}
+            dicts |= {src(t_.value) for a_ in ast.walk(fh.node) if isinstance(a_, (ast.Assign, ast.AugAssign)) for t_ in ([a_.targets[0]] if isinstance(a_, ast.Assign) else [a_.target]) if isinstance(t_, ast.Subscript) and isinstance(t_.value, ast.Name)}
             rets = [r for r in walk_no_nested(fh.node) if isinstance(r, ast.Return)]
             rets.sort(key=lambda r: r.lineno)
             for r in rets:
